@@ -37,7 +37,7 @@ theorem failsAloneX_iff (W : World) (n : Nat) (decl : List FieldDecl) (ex : List
   rw [runItems_isError]
 
 /-- a declaration of one field given exactly that field: rejected iff `parse_value` reports -/
-theorem run_single (W : World) (n : Nat) (f : FieldDecl) (o : Opts) (v : Val) :
+theorem run_single (W : World) (n : Nat) (f : FieldDecl) (hp : f.posOnly = false) (o : Opts) (v : Val) :
     isError (runItems W n [f] [] .ff o [(f.name, v)]) = (repField (parse W n) .ff o f v).isSome := by
   rw [runItems_isError]
   unfold reportsX
@@ -46,7 +46,7 @@ theorem run_single (W : World) (n : Nat) (f : FieldDecl) (o : Opts) (v : Val) :
   · simp only [hd, if_true]
     rw [reportsDF_eq]
     have h1 : g1 (parse W n) .ff o [f] [] (f.name, v) = repField (parse W n) .ff o f v := by
-      simp [g1]
+      simp [g1, hp]
     have h2 : g2 [(f.name, v)] [] f = none := by
       simp [g2, hasKey]
     simp only [List.filterMap_cons, List.filterMap_nil, h1, h2]
@@ -158,7 +158,7 @@ theorem posRep_posFailing (W : World) (n : Nat) (sg : Sig) (o : Opts) (it : Val 
   unfold posFailing
   by_cases hv : (sg.hasVar && decide (it.2 ≥ sg.npos)) = true
   · simp only [hv, if_true]
-    rw [show ("*args" : String) = (varField sg o).name from rfl, run_single, posRep_var _ _ _ _ _ hv]
+    rw [show ("*args" : String) = (varField sg o).name from rfl, run_single _ _ _ rfl, posRep_var _ _ _ _ _ hv]
     rcases Option.eq_none_or_eq_some (repField (parse W n) .ff o (varField sg o) it.1) with hr | ⟨e0, hr⟩
     · simp [hr]
     · simp [hr]
@@ -166,7 +166,10 @@ theorem posRep_posFailing (W : World) (n : Nat) (sg : Sig) (o : Opts) (it : Val 
     rcases Option.eq_none_or_eq_some ((sg.decl.take sg.npos)[it.2]?) with hget | ⟨f, hget⟩
     · simp [hget, posRep_none _ _ _ _ _ hv hget]
     · simp only [hget]
-      rw [run_single, posRep_field _ _ _ _ _ f hv hget]
+      have hname : f.name = ({ f with posOnly := false } : FieldDecl).name := rfl
+      have hrep : repField (parse W n) .ff o ({ f with posOnly := false } : FieldDecl) it.1 =
+          repField (parse W n) .ff o f it.1 := rfl
+      rw [hname, run_single _ _ _ rfl, hrep, posRep_field _ _ _ _ _ f hv hget]
       constructor
       · intro e he
         refine ⟨f.name, repField_item he, ?_⟩
@@ -255,5 +258,15 @@ theorem posFin_keys (rec : P) (m : Mode) (o : Opts) (sg : Sig) (args : List Val)
   unfold posFin givenPos
   have := fin_posStep_keys rec m o sg args 0 ([], [])
   simpa using this
+
+/-- without positional-only parameters the second loop of `parse_params` does nothing -/
+theorem callReports_noPosOnly (rec : P) (m : Mode) (o : Opts) (sg : Sig) (hpo : sg.nposOnly = 0) (args : List Val)
+    (kwargs : Data) :
+    callReports rec m o sg args kwargs =
+      posReports rec m o sg args ++ reportsX rec m o sg.decl (givenPos sg args) true kwargs := by
+  unfold callReports posOnlyReports keysFin
+  rw [hpo]
+  simp only [List.take_zero, List.zipIdx_nil, trace, fin, List.nil_append, List.append_nil]
+  rw [posFin_keys]
 
 end Utv.C10
